@@ -86,7 +86,37 @@ def worker_main(args):
                 doc = json.load(f)
             mod.evaluate(ctx, ctxmod.unhex(doc['case']))
         else:
-            mod.run(ctx)
+            # history independence: a sample of the cases that went through evaluate() is evaluated a second time
+            # at the end of the run, in reverse order, after everything else has been called in between
+            # (catches answers that depend on what was asked before: memoisation keyed too coarsely, shared
+            # mutable results, state left behind by earlier calls)
+            sample, seen = [], [0]
+            orig_evaluate = getattr(mod, 'evaluate', None)
+            cap = getattr(mod, 'HISTORY_SAMPLE', 300)
+            if orig_evaluate is not None and cap:
+                def recording_evaluate(c, case):
+                    seen[0] += 1
+                    if len(sample) < cap:
+                        sample.append(case)
+                    elif (seen[0] * 2654435761) % 1000 < 8:
+                        sample[seen[0] % cap] = case
+                    return orig_evaluate(c, case)
+                mod.evaluate = recording_evaluate
+            try:
+                mod.run(ctx)
+            finally:
+                if orig_evaluate is not None:
+                    mod.evaluate = orig_evaluate
+            if sample and not ctx.violation_count:
+                before = ctx.violation_count
+                for case in reversed(sample):
+                    orig_evaluate(ctx, case)
+                ctx.clause('history-replay (second evaluation of an earlier case)', len(sample))
+                if ctx.violation_count > before:
+                    for v in ctx.violations:
+                        pass
+                    ctx.note('violations appeared only when earlier cases were evaluated a second time at the end '
+                             'of the run: the answer depends on the call history')
     except BaseException as e:  # noqa
         tb = traceback.format_exc()
         if _from_repo(e.__traceback__, root):
